@@ -7,6 +7,7 @@
 import collections
 import copy
 import json
+import os
 
 from simbox import gen as G
 from simbox import world as W
@@ -14,7 +15,7 @@ from simbox.framework import Check
 from simbox.normalize import results_by_codemod
 from simbox.util import enc
 
-FILES = ["pkg/a.py", "pkg/b.py", "app/c.py", "d.py"]
+FILES = ["pkg/a.py", "pkg/b.py", "app/c.py", "d.py", ".ci/deploy.py"]
 SONAR_RULES = ["python:S1716", "python:S5905", "pythonsecurity:S3649", "python:S2245"]
 SARIF_RULES = ["python.lang.r1.r1", "python.django.security.r2.r2", "py/r3", "r4"]
 DD_RULES = ["python.django.security.audit.avoid-insecure-deserialization.avoid-insecure-deserialization", "dd.rule.two", "dd.rule.three"]
@@ -74,7 +75,7 @@ def gen_sarif_doc(rng, uid, own_tool):
                 region.pop("endColumn")
             if own_tool == "codeql" and rng.random() < 0.1:
                 region = None  # a result for the whole file
-            res = {"message": {"text": f"m{uid[0]}"}, "locations": [{"physicalLocation": {"artifactLocation": {"uri": rng.choice(FILES)}, "region": region}}]}
+            res = {"message": {"text": f"m{uid[0]}"}, "locations": [{"physicalLocation": {"artifactLocation": {"uri": ("./" if rng.random() < 0.15 else "") + rng.choice(FILES)}, "region": region}}]}
             if region is None:
                 del res["locations"][0]["physicalLocation"]["region"]
             elif rng.random() < 0.2:
@@ -107,7 +108,7 @@ def ref_sarif(doc, own_tool):
                 rg = pl.get("region") or {}
                 sl = rg.get("startLine", 0)
                 sc = rg.get("startColumn", -1 if own_tool == "semgrep" else None)
-                out[(rid, pl["artifactLocation"]["uri"], sl, sc, rg.get("endLine", sl), rg.get("endColumn", sc), rid)] += 1
+                out[(rid, os.path.normpath(pl["artifactLocation"]["uri"]), sl, sc, rg.get("endLine", sl), rg.get("endColumn", sc), rid)] += 1
     return out
 
 
